@@ -148,13 +148,32 @@ def main(argv):
                 json.dump(rec, fp, indent=1)
             replays.append(path)
             violations += 1
+            lines.append('FAILED-OBLIGATION property=%s obligation=%s function=%s' % (pid, key, f.fnkey))
             if hit:
-                lines.append('VIOLATION property=%s replay=%s obligation=%s' % (pid, path, key))
+                lines.append('VIOLATION property=%s replay=%s' % (pid, path))
             else:
-                lines.append('VIOLATION property=%s replay=%s obligation=%s no-failing-input-found' % (pid, path, key))
+                lines.append('VIOLATION property=%s replay=%s no-failing-input-found' % (pid, path))
         exit_code = 1
     if undecided:
+        # The verifier could not decide (lost anchor / construct outside the supported subset / solver limit).
+        # That is never reported as a violation by itself.  The concrete search on the REAL code still runs: an input
+        # on which the real code contradicts the property statement is a genuine violation, whatever the verifier's state.
         exit_code = 2
+        hit = refute.search(pid, None, tier, seed)
+        if hit:
+            os.makedirs(REPLAYS, exist_ok=True)
+            key = 'undecided:' + undecided[0][:120]
+            path = os.path.join(REPLAYS, '%s-%s.json' % (pid, hashlib.sha1(key.encode()).hexdigest()[:10]))
+            rec = dict(property=pid, failed_obligation=dict(obligation=key, verus_output='\n'.join(undecided), kind='undecided',
+                       note='no obligation could be generated or decided for the changed code; the violation below was found by running the real code'),
+                       repo=repo_state(), counterexample=hit, checker_cmd='; '.join(r.cmd for r in results))
+            with open(path, 'w') as fp:
+                json.dump(rec, fp, indent=1)
+            replays.append(path)
+            violations += 1
+            lines.append('FAILED-OBLIGATION property=%s obligation=%s (verifier undecided; concrete counterexample found on the real code)' % (pid, key))
+            lines.append('VIOLATION property=%s replay=%s' % (pid, path))
+            exit_code = 1
     wall = time.time() - t0
     ev = dict(
         property_id=pid, tier=tier, seed=seed, level='proof',
